@@ -17,7 +17,7 @@
 (* implementation, and (b) by Trace_TTPool to validate traces recorded     *)
 (* from the real implementation.                                           *)
 (***************************************************************************)
-EXTENDS TTBase, Json
+EXTENDS Islands, Json
 
 CONSTANTS
     Scenarios,      \* set of scenario names enabled in Init
@@ -34,12 +34,14 @@ CONSTANTS
     MaxDB,          \* maximal order of the second operand in scenario "td"
     OWs,            \* subset of BOOLEAN: overwrite variants enabled
     QL,             \* maximal length of a mode factorisation in TT2QTT
+    IslLevel,       \* 0: no islands; 1, 2: size of the island catalogue of scenario "odeco"
     EmitAll         \* TRUE: emit every history prefix; FALSE: only complete histories
 
 VARIABLES pool, hist
 vars == <<pool, hist>>
 
 Orders == 1..MaxD
+BOOL3 == {FALSE, TRUE}
 Shapes == UNION {ShapesD(d, DimsR, DimsC, RanksS) : d \in Orders}
 
 \* ------------------------------------------------------------- pool objects
@@ -48,9 +50,11 @@ Shapes == UNION {ShapesD(d, DimsR, DimsC, RanksS) : d \in Orders}
 \*                factor of a decomposition); only dims/metadata are
 \*     "dead"   - consumed by an overwrite=True call whose effect on self is undocumented
 UNK == 999      \* rank bound "unknown" (larger than any rank in the model)
-Obj(dn, rk) == [d |-> dn, rk |-> rk, lo |-> {}, ro |-> {}, st |-> "exact"]
+NoIsl == [sig |-> <<>>, Q |-> <<>>]
+Obj(dn, rk) == [d |-> dn, rk |-> rk, lo |-> {}, ro |-> {}, st |-> "exact", isl |-> NoIsl, gauged |-> FALSE]
 OpaqueObj(rd, cd, r0, rN, rk) == [d |-> [rd |-> rd, cd |-> cd, r0 |-> r0, rN |-> rN, v |-> <<>>],
-                                  rk |-> rk, lo |-> {}, ro |-> {}, st |-> "opaque"]
+                                  rk |-> rk, lo |-> {}, ro |-> {}, st |-> "opaque", isl |-> NoIsl, gauged |-> FALSE]
+HasIsl(o) == o.isl # NoIsl
 Exact(o) == o.st = "exact"
 Alive(o) == o.st # "dead"
 ObjOfCores(cores) == Obj(FullOf(cores), Ranks(cores))
@@ -168,6 +172,27 @@ InitOpen ==
         IN  /\ ShardOf(sa, so, kp, seed) = Shard
             /\ InitWith(<<FillCores(kp[1], seed, so)>>)
 
+\* scenario "odeco": one exactly solvable operand (spec/Islands.tla), gauged (non-orthonormal) cores
+IslCatalog ==
+    {[sig |-> <<5, 3>>, Q |-> <<QA2, QC2, QA3>>],
+     [sig |-> <<8, 4, 2>>, Q |-> <<QA3, QP3, QA3>>],
+     [sig |-> <<2, 7>>, Q |-> <<QA2, QA2>>],
+     [sig |-> <<3, 6, 5>>, Q |-> <<QA3, QA3>>]}
+    \cup (IF IslLevel >= 2
+          THEN {[sig |-> <<1, 4, 2>>, Q |-> <<QP3, QA3, QA3, QP3>>],
+                [sig |-> <<9, 2>>, Q |-> <<QC2, QA2, QC2, QA2>>],
+                [sig |-> <<4, 4, 1>>, Q |-> <<QA3, QA3, QA3>>],          \* tie among the largest (errors/ranks only)
+                [sig |-> <<6, 1>>, Q |-> <<QA3, QA2, QA3>>],
+                [sig |-> <<7>>, Q |-> <<QA2, QA3>>]}
+          ELSE {})
+DistinctSig(sig) == \A a \in 1..Len(sig), b \in 1..Len(sig) : a # b => sig[a] # sig[b]
+InitOdeco ==
+    \E isl \in IslCatalog, g \in BOOL3 :
+        /\ Shard = (isl.sig[1] + Len(isl.Q) + (IF g THEN 1 ELSE 0)) % NShards
+        /\ LET cores == IslCores(isl, g)
+           IN  /\ pool = <<[ObjOfCores(cores) EXCEPT !.isl = isl, !.gauged = g]>>
+               /\ hist = <<[NewEv(cores) EXCEPT !.new = <<[ObjOfCores(cores) EXCEPT !.isl = isl, !.gauged = g]>>]>>
+
 \* scenario "ctor": empty pool; constructors only
 InitCtor == Shard = 0 /\ pool = <<>> /\ hist = <<>>
 
@@ -181,6 +206,7 @@ Init ==
     \/ "td" \in Scenarios /\ InitTD
     \/ "open" \in Scenarios /\ InitOpen
     \/ "ctor" \in Scenarios /\ InitCtor
+    \/ "odeco" \in Scenarios /\ InitOdeco
 
 \* ---------------------------------------------------------------- observers
 \* (no state change other than the history; the pool clause "operands
@@ -475,7 +501,7 @@ OrthoTrunc(a, which, r) ==
                   [] which = "right" -> GaugeRight(o, d - 1, 1)
                   [] OTHER -> GaugeRight(GaugeLeft(o, 0, d - 2), d - 1, 1)
            cut == Cuts(g.rk, r, 2, d)
-           g2 == [g EXCEPT !.rk = CapRk(g.rk, r, 2, d),
+           g2 == [g EXCEPT !.rk = CapRk(g.rk, r, 2, d), !.isl = NoIsl,
                            !.st = IF cut /\ o.st = "exact" THEN "opaque" ELSE o.st,
                            !.d.v = IF cut THEN <<>> ELSE o.d.v]
        IN  Step([op |-> "OrthoTrunc", a |-> a, which |-> which, maxrank |-> r, cut |-> cut,
@@ -484,33 +510,117 @@ OrthoTrunc(a, which, r) ==
 \* global SVD of a vector-type train at a split index: u (open right rank), s, v (open left rank).
 \* The factors are opaque objects; the event carries the dense value so that the replay can check
 \* u diag(s) v = value, the isometries and the singular values (C05).
-Svd(a, index, ow) ==
+\* opt = [r, p, q, ol, orr]: max_rank r (0: unbounded), relative threshold p/q (p = 0: none),
+\* ortho_l / ortho_r flags.  Skipping a sweep is admissible only if that side is already orthonormal.
+\* Truncating options are only enabled where their effect is determined: on un-gauged islands.
+NoOpt == [r |-> 0, p |-> 0, q |-> 1, ol |-> TRUE, orr |-> TRUE]
+SvdKeep(isl, opt) ==
+    (IF opt.r = 0 THEN 1..Len(isl.sig) ELSE TopIdx(isl.sig, opt.r))
+        \cap (IF opt.p = 0 THEN 1..Len(isl.sig) ELSE ThrIdx(isl.sig, opt.p, opt.q))
+\* squares of the singular values of an island, largest first
+RECURSIVE SortDesc(_)
+SortDesc(S) == IF S = {} THEN <<>> ELSE LET m == CHOOSE x \in S : \A y \in S : y <= x IN <<m>> \o SortDesc(S \ {m})
+IslSvSq(isl, keep) == LET sq == SortDesc({isl.sig[k] : k \in keep}) IN [t \in 1..Len(sq) |-> sq[t] * sq[t] * IslScaleSq(isl)]
+
+SvdO(a, index, ow, opt) ==
     /\ "Svd" \in Ops /\ Closed(pool[a]) /\ IsVec(pool[a])
     /\ Order(pool[a]) >= 2 /\ index >= 1 /\ index <= Order(pool[a]) - 1
+    /\ (~opt.ol => (0..(index - 2)) \subseteq pool[a].lo)
+    /\ (~opt.orr => (index..(Order(pool[a]) - 1)) \subseteq pool[a].ro)
+    \* a relative threshold acts on the spectra the sweeps see: determined (= the planted ratios) only for
+    \* an un-gauged island that has not been re-gauged; a rank cap below the number of terms may cut in a
+    \* sweep over a non-canonical side, then only the rank cap and the isometries are claimed ("cut")
+    /\ (opt.p # 0 => (HasIsl(pool[a]) /\ pool[a].ro = {} /\ pool[a].lo = {} /\ DistinctSig(pool[a].isl.sig)
+                       /\ pool[a].gauged = FALSE /\ ~ThrTie(pool[a].isl.sig, opt.p, opt.q)))
+    /\ (opt.r # 0 => HasIsl(pool[a]))
     /\ LET o == pool[a]
            d == Order(o)
            g == GaugeRight(GaugeLeft(o, 0, index - 2), d - 1, index)
-           r == Min(g.rk[index] * o.d.rd[index], g.rk[index + 1])
+           r0 == Min(g.rk[index] * o.d.rd[index], g.rk[index + 1])
+           r == IF opt.r = 0 THEN r0 ELSE Min(r0, opt.r)
            u == [OpaqueObj(SubSeq(o.d.rd, 1, index), SubSeq(o.d.cd, 1, index), 1, r,
                            SubSeq(g.rk, 1, index) \o <<r>>) EXCEPT !.lo = 0..(index - 1)]
            v == [OpaqueObj(SubSeq(o.d.rd, index + 1, d), SubSeq(o.d.cd, index + 1, d), r, 1,
                            <<r>> \o SubSeq(g.rk, index + 2, d + 1)) EXCEPT !.ro = 0..(d - index - 1)]
-           ev == [op |-> "Svd", a |-> a, index |-> index, ow |-> ow, val |-> o.d, rmax |-> r]
+           cut == HasIsl(o) /\ opt.r # 0 /\ opt.r < Len(o.isl.sig)
+           keep == IF HasIsl(o) THEN SvdKeep(o.isl, [opt EXCEPT !.r = 0]) ELSE {}
+           ev == [op |-> "Svd", a |-> a, index |-> index, ow |-> ow, opt |-> opt, rmax |-> r, cut |-> cut,
+                  \* the tensor u diag(s) v must reproduce (the thresholded island if the threshold cuts)
+                  val |-> IF HasIsl(o) /\ opt.p # 0 THEN [IslDense(o.isl, keep) EXCEPT !.cd = o.d.cd] ELSE o.d,
+                  island |-> HasIsl(o) /\ DistinctSig(o.isl.sig),
+                  svsq |-> IF HasIsl(o) THEN IslSvSq(o.isl, keep) ELSE <<>>]
        IN  IF ow THEN Step(ev, <<u, v>>, <<<<a, [o EXCEPT !.st = "dead", !.d.v = <<>>]>>>>)
                  ELSE Step(ev, <<u, v>>, <<>>)
+Svd(a, index, ow) == SvdO(a, index, ow, NoOpt)
 
-\* pseudoinverse at a split index (value checked by the replay against the Moore-Penrose
-\* pseudoinverse of the unfolding: C05); here: a fresh object of the same dims, operand unchanged
-Pinv(a, index, ow) ==
+\* pseudoinverse at a split index with relative cut-off 10^-threxp (threxp > 0) or p/q.
+\* The replay compares with the conjugate transpose of the Moore-Penrose pseudoinverse of the exact
+\* unfolding carried in "val" (numeric evaluator).  Cut-offs that remove planted singular values are only
+\* enabled on un-gauged islands (the sweeps of a non-canonical train would cut elsewhere).
+PinvO(a, index, ow, p, q) ==
     /\ "Pinv" \in Ops /\ Closed(pool[a]) /\ IsVec(pool[a])
     /\ \E n \in 1..Len(pool[a].d.v) : pool[a].d.v[n] # CZ      \* not the zero tensor (s/s[0] undefined)
     /\ Order(pool[a]) >= 2 /\ index >= 1 /\ index <= Order(pool[a]) - 1
+    /\ (p # 0 => (HasIsl(pool[a]) /\ pool[a].ro = {} /\ pool[a].lo = {} /\ DistinctSig(pool[a].isl.sig)
+                  /\ pool[a].gauged = FALSE /\ ~ThrTie(pool[a].isl.sig, p, q)))
     /\ LET o == pool[a]
-           p == OpaqueObj(o.d.rd, o.d.cd, 1, 1, [t \in 1..Len(o.rk) |-> IF t = 1 \/ t = Len(o.rk) THEN 1 ELSE UNK])
+           pinv == OpaqueObj(o.d.rd, o.d.cd, 1, 1, [t \in 1..Len(o.rk) |-> IF t = 1 \/ t = Len(o.rk) THEN 1 ELSE UNK])
            \* relative cut-off 10^-12: drops exactly the zero singular values of an integer unfolding
-           ev == [op |-> "Pinv", a |-> a, index |-> index, ow |-> ow, val |-> o.d, threxp |-> 12]
-       IN  IF ow THEN Step(ev, <<p>>, <<<<a, [o EXCEPT !.st = "dead", !.d.v = <<>>]>>>>)
-                 ELSE Step(ev, <<p>>, <<>>)
+           ev == [op |-> "Pinv", a |-> a, index |-> index, ow |-> ow, val |-> o.d, threxp |-> IF p = 0 THEN 12 ELSE 0,
+                  thrp |-> p, thrq |-> q]
+       IN  IF ow THEN Step(ev, <<pinv>>, <<<<a, [o EXCEPT !.st = "dead", !.d.v = <<>>]>>>>)
+                 ELSE Step(ev, <<pinv>>, <<>>)
+Pinv(a, index, ow) == PinvO(a, index, ow, 0, 1)
+
+
+\* ---------------------------------------------------------------- C04: truncation
+\* ortho(max_rank = caps) on an island operand: caps is the per-bond list <<1, r_1, .., r_{d-1}, 1>>
+\* (asInt: the same cap on every bond, passed as an int).  The left sweep is exact, the right sweep
+\* cuts every bond of a left-orthonormal train: the result is the sum of the min(caps) largest terms.
+IslOrthoTrunc(a, caps, asInt) ==
+    /\ "IslOrthoTrunc" \in Ops /\ Closed(pool[a]) /\ HasIsl(pool[a])
+    /\ LET o == pool[a]
+           isl == o.isl
+           d == Order(o)
+           K == Len(isl.sig)
+           rmin == IMinTo([t \in 1..(d - 1) |-> caps[t + 1]], d - 1)
+           keep == TopIdx(isl.sig, rmin)
+           g == GaugeRight(GaugeLeft(o, 0, d - 2), d - 1, 1)
+           pred == DistinctSig(isl.sig)           \* with ties only ranks and error are predicted
+           res == [g EXCEPT !.d = IF pred THEN IslDense(isl, keep) ELSE [o.d EXCEPT !.v = <<>>],
+                            !.st = IF pred THEN "exact" ELSE "opaque",
+                            !.rk = [t \in 1..(d + 1) |-> Min(g.rk[t], caps[t])],
+                            !.isl = NoIsl]
+       IN  /\ d >= 2 /\ Len(caps) = d + 1
+           /\ Step([op |-> "IslOrthoTrunc", a |-> a, caps |-> caps, asInt |-> asInt, val |-> o.d,
+                    errsq |-> SumSq(isl.sig, (1..K) \ keep) * IslScaleSq(isl),
+                    boundsq |-> ISumTo([t \in 1..(d - 1) |-> SumSq(isl.sig, (1..K) \ TopIdx(isl.sig, caps[t + 1]))], d - 1)
+                                    * IslScaleSq(isl),
+                    touched |-> 0..(d - 1)], <<>>, <<<<a, res>>>>)
+
+\* TT(full array, threshold = p/q, max_rank = r); r = 0 means unbounded, p = 0 means no threshold.
+\* For an island the kept terms are known exactly; for a general exact operand the value is predicted
+\* only when nothing is cut, otherwise the replay checks the rank cap and the error bounds (C04)
+\* against the singular values of the exact unfoldings carried in "val".
+FromArray(a, r, p, q) ==
+    /\ "FromArray" \in Ops /\ Closed(pool[a])
+    /\ LET o == pool[a]
+           d == Order(o)
+           isl == o.isl
+           K == Len(isl.sig)
+           keep == (IF r = 0 THEN 1..K ELSE TopIdx(isl.sig, r)) \cap (IF p = 0 THEN 1..K ELSE ThrIdx(isl.sig, p, q))
+           exactPred == (r = 0 /\ p = 0) \/ (HasIsl(o) /\ DistinctSig(isl.sig))
+           dn == IF r = 0 /\ p = 0 THEN o.d
+                 ELSE IF HasIsl(o) /\ DistinctSig(isl.sig) THEN [IslDense(isl, keep) EXCEPT !.cd = o.d.cd]
+                 ELSE [o.d EXCEPT !.v = <<>>]
+           rk == [t \in 1..(d + 1) |-> IF t = 1 \/ t = d + 1 THEN 1 ELSE IF r = 0 THEN UNK ELSE r]
+           res == [Obj(dn, rk) EXCEPT !.st = IF exactPred THEN "exact" ELSE "opaque", !.lo = 0..(d - 2)]
+       IN  /\ (p # 0 => (\E n \in 1..Len(o.d.v) : o.d.v[n] # CZ))
+           /\ (p # 0 /\ HasIsl(o) => ~ThrTie(isl.sig, p, q))
+           /\ Step([op |-> "FromArray", a |-> a, maxrank |-> r, thrp |-> p, thrq |-> q, val |-> o.d,
+                    island |-> HasIsl(o),
+                    errsq |-> IF HasIsl(o) THEN SumSq(isl.sig, (1..K) \ keep) * IslScaleSq(isl) ELSE -1],
+                   <<res>>, <<>>)
 
 \* ----------------------------------------------------------------- Next
 BOOL2 == {FALSE, TRUE}
@@ -532,8 +642,22 @@ Next ==
                          \/ \E s \in 1..(MaxD - 1), e \in 1..(MaxD - 1) :
                                 OrthoRight(a, s, e, FALSE) \/ OrthoRight(a, s, e, TRUE)
                          \/ Ortho(a)
+                         \/ \E caps \in [1..(Order(pool[a]) + 1) -> 1..3], asInt \in BOOL2 :
+                                /\ caps[1] = 1 /\ caps[Order(pool[a]) + 1] = 1
+                                /\ (asInt => \A t \in 2..Order(pool[a]) : caps[t] = caps[2])
+                                /\ (Lean => asInt)
+                                /\ IslOrthoTrunc(a, caps, asInt)
+                         \/ \E r \in 0..3, pq \in {<<0, 1>>, <<1, 3>>, <<3, 5>>, <<9, 10>>, <<1, 100>>} :
+                                FromArray(a, r, pq[1], pq[2])
                          \/ \E which \in {"left", "right", "both"}, r \in (IF Lean THEN {1} ELSE 1..2) : OrthoTrunc(a, which, r)
                          \/ \E index \in 1..(MaxD - 1), ow \in OWs : Svd(a, index, ow) \/ Pinv(a, index, ow)
+                         \/ \E index \in 1..(MaxD - 1), ow \in OWs, ol \in BOOL2, orr \in BOOL2, r \in 0..3,
+                               pq \in {<<0, 1>>, <<1, 3>>, <<3, 5>>, <<9, 10>>} :
+                                /\ "SvdOpt" \in Ops
+                                /\ (r # 0 \/ pq[1] # 0 \/ ~ol \/ ~orr)
+                                /\ SvdO(a, index, ow, [r |-> r, p |-> pq[1], q |-> pq[2], ol |-> ol, orr |-> orr])
+                         \/ \E index \in 1..(MaxD - 1), ow \in OWs, pq \in {<<1, 3>>, <<3, 5>>, <<9, 10>>} :
+                                "PinvThr" \in Ops /\ PinvO(a, index, ow, pq[1], pq[2])
                          \/ \E f \in {g \in [1..Order(pool[a]) ->
                                             UNION {ModeFacts(pool[a].d.rd[k], pool[a].d.cd[k]) : k \in 1..Order(pool[a])}] :
                                         \A k \in 1..Order(pool[a]) : g[k] \in ModeFacts(pool[a].d.rd[k], pool[a].d.cd[k])} :
